@@ -277,6 +277,17 @@ def make_inputs(thorough):
     add("twodots", {"a.b.rs": U("a")}, ["a.b.rs"], ["a.b.rs"])
     add("submod", {"lib.rs": b"mod   x ;\n" + U("r"), "x.rs": U("x", 2)}, ["lib.rs"], ["lib.rs", "x.rs"])
     add("submod-root-formatted", {"lib.rs": b"mod x;\n" + F("r"), "x.rs": U("x", 2)}, ["lib.rs"], ["lib.rs", "x.rs"])
+    # a file reached twice in one run: as a module of one input and as an input itself; through two spellings
+    # of its path inside one crate
+    add("submod+module-named", {"lib.rs": b"mod   x ;\n" + U("r"), "x.rs": U("x", 2)}, ["lib.rs", "x.rs"], ["lib.rs", "x.rs"])
+    add(
+        "one-file-two-path-spellings",
+        {"lib.rs": b'#[path = "b.rs"]\nmod   x ;\n#[path = "sub/../b.rs"]\nmod   y ;\n' + U("r"), "b.rs": U("b", 2), "sub/keep.txt": b"x\n"},
+        ["lib.rs"],
+        ["lib.rs", "b.rs"],
+    )
+    # already formatted, CRLF line endings (unchanged under newline_style=Windows)
+    add("formatted-crlf", {"a.rs": F("a").replace(b"\n", b"\r\n")}, ["a.rs"], ["a.rs"])
     # "for every input file": a source file whose own name ends in .tmp
     add("name.tmp", {"t.tmp": U("t")}, ["t.tmp"], ["t.tmp"])
     # thorough tier
@@ -309,6 +320,7 @@ MODES = {
     "files": ([], False),
     "--backup --emit files": (["--backup", "--emit", "files"], True),
     "--emit files --backup": (["--emit", "files", "--backup"], True),
+    "--backup newline_style=Windows": (["--backup", "--config", "newline_style=Windows"], True),
     "--config make_backup=true": (["--config", "make_backup=true"], True),
 }
 
@@ -316,7 +328,7 @@ MODES = {
 def modes_for(thorough):
     # every spelling that selects the backup protocol is part of the alphabet: which emitter runs is
     # decided in the command-line layer, before the protocol itself
-    return list(MODES) if thorough else ["--backup", "files", "--emit files --backup", "--backup --emit files"]
+    return list(MODES) if thorough else ["--backup", "files", "--emit files --backup", "--backup --emit files", "--backup newline_style=Windows"]
 
 
 def subject_argv(inp, mode, root):
@@ -729,8 +741,11 @@ ASSUMPTIONS = [
 ]
 
 
-def refs_for(inp):
-    return {t: reference(inp["files"][t]) for t in inp["targets"]}
+def refs_for(inp, mode=""):
+    refs = {t: reference(inp["files"][t]) for t in inp["targets"]}
+    if "newline_style=Windows" in mode:
+        refs = {t: r.replace(b"\r\n", b"\n").replace(b"\n", b"\r\n") for t, r in refs.items()}
+    return refs
 
 
 def state_str(s):
@@ -741,7 +756,7 @@ def explore_one(job):
     """Worker: the fault tree of one (input, mode)."""
     inp, mode, thorough = job
     try:
-        refs = refs_for(inp)
+        refs = refs_for(inp, mode)
         results, skipped = explore(lambda root: subject_argv(inp, mode, root), inp, refs, thorough)
         return (refs, results, skipped)
     except Machinery as e:
@@ -964,6 +979,9 @@ def main():
             states, contrast = {}, {}
             pending = []
             jobs = [(inp, mode, thorough) for inp in inputs for mode in modes]
+            # newline_style=Auto never detects CRLF on a file path (known finding, C06 / C08): the CRLF input
+            # has a defined formatted text only under an explicit style
+            jobs = [j for j in jobs if not (j[0]["name"] == "formatted-crlf" and "newline_style" not in j[1] and j[1] != "files")]
             explored = parallel_map(explore_one, jobs, jobs=int(os.environ.get("C20_OUTER", "4")))
             for (inp, mode, _t), ex in zip(jobs, explored):
                 if isinstance(ex, Machinery):
